@@ -56,8 +56,22 @@ def run(ctx):
     base_atoms = set(rm.recorder_excm(ctx).base_only)
     fw_atoms = set(rm.recorder_excm(ctx).framework)
 
+    # the option of the factory that says "no instance in front of the arguments": the name tested where `args` / `args[1:]` is chosen
+    va0 = cl.node.args.vararg.arg
+    static_opt = None
+    for n in ast.walk(cl.node):
+        if isinstance(n, (ast.IfExp, ast.If)):
+            arms = ([n.body, n.orelse] if isinstance(n, ast.IfExp) else
+                    [x.value for b_ in (n.body, n.orelse) for x in b_ if isinstance(x, ast.Assign)])
+            whole = any(isinstance(a, ast.Name) and a.id == va0 for a in arms)
+            tail = any(isinstance(a, ast.Subscript) and isinstance(a.value, ast.Name) and a.value.id == va0 and isinstance(a.slice, ast.Slice) for a in arms)
+            names = [x.id for x in ast.walk(n.test) if isinstance(x, ast.Name)]
+            if whole and tail and len(names) == 1 and names[0] in fac.all_param_names:
+                static_opt = names[0]
+    if static_opt is None:
+        static_opt = 'static_function'
     for variant in ('recording', 'playback'):
-        d = rm.run_closure(ctx, 'output', variant, track_free=('static_function',))
+        d = rm.run_closure(ctx, 'output', variant, track_free=(static_opt,))
         ca.evaluations += d.visited_pairs
         bad = None
         nint = 0
@@ -121,7 +135,7 @@ def run(ctx):
             if not (o is not None and o.name == ('counter-read', 1, alias_sym) and a is not None and a.name == alias_sym):
                 bad_ord = bad_ord or (node, st, 'alias=%s ordinal=%s' % (a.name if a else None, o.name if o else None))
             av, kv = g(p_args), g(p_kwargs)
-            stat = st.facts.get(('free', fac.qualname, 'static_function'), (None, None))[1]
+            stat = st.facts.get(('free', fac.qualname, static_opt), (None, None))[1]
             want = args_sym if stat is True else ('sub', args_sym, '1:', None) if stat is False else None
             if want is None or av is None or av.name != want or kv is None or kv.name != kwargs_sym:
                 bad_args = bad_args or (node, st, 'static=%s args=%s kwargs=%s' % (stat, av.name if av else None, kv.name if kv else None))
